@@ -2,6 +2,7 @@
    usage: corefast <file>   with lines
      lg <id> <rule> <order> <d> <outs> pidx: i.. vals: v.. coef: c.. xs: x.. ys: y..
      sg <id> <rule> <d> <depth> pidx: i..      (the point set of makeLocalPolynomialGrid vs Model.StdGrid.std_grid; prints sg <id> n=<model points> same=<b>)
+   (lg uses surpluses_up / evalAt_up / hier_cert_up of Model/LocalGridUp.v: the ancestor links of computeDAGup)
    prints: lg <id> cert=<b> complete=<b> n=<points> coeferr=.. evalerr=.. nodeerr=.. (errors relative to max(1,max|vals|)) *)
 open Common
 module ZA = Z
@@ -42,20 +43,20 @@ let () =
            let coef = Array.of_list (List.map float_of_tok (get "coef:" m)) in
            let xs = List.map float_of_tok (get "xs:" m) and ys = Array.of_list (List.map float_of_tok (get "ys:" m)) in
            let scale = Array.fold_left (fun a v -> Float.max a (Float.abs v)) 1.0 vals in
-           let cert = hier_cert r order pts and complete = parent_complete r pts in
+           let cert = hier_cert_up r order pts and complete = parent_complete r pts in
            let coeferr = ref 0.0 and evalerr = ref 0.0 and nodeerr = ref 0.0 in
            let xpts = chunks d xs in
            for k = 0 to outs - 1 do
              let assoc = List.mapi (fun i p -> (p, q2Qc (q_of_float vals.(i * outs + k)))) pts in
-             let s = surpluses r order pts assoc in
+             let s = surpluses_up r order pts assoc in
              List.iteri (fun i p ->
                  let sv = float_of_q (this (List.assoc p s)) in
                  if Array.length coef = n * outs then coeferr := Float.max !coeferr (Float.abs (sv -. coef.(i * outs + k)) /. scale)) pts;
              List.iteri (fun xi x ->
-                 let e = float_of_q (this (evalAt r order pts assoc (List.map q_of_float x))) in
+                 let e = float_of_q (this (evalAt_up r order pts assoc (List.map q_of_float x))) in
                  if Array.length ys > xi * outs + k then evalerr := Float.max !evalerr (Float.abs (e -. ys.(xi * outs + k)) /. scale)) xpts;
              if cert && k = 0 then List.iteri (fun i p ->
-                 let e = evalAt r order pts assoc (List.map (fun z -> getNode r z) p) in
+                 let e = evalAt_up r order pts assoc (List.map (fun z -> getNode r z) p) in
                  let dv = float_of_q (this e) -. vals.(i * outs + k) in
                  nodeerr := Float.max !nodeerr (Float.abs dv /. scale)) pts
            done;
